@@ -105,7 +105,7 @@ FOLLOWUP_MAX_STACK = 1  # the differential follow-up layer is run from documents
 # --------------------------------------------------------------------------- evaluation of one transition
 
 _memo: dict = {}
-MINIMISE_CAP = 60  # per document: failing transitions minimised before falling back to raw reports
+MINIMISE_CAP = 400  # per document: distinct minimal failures after which raw transitions are reported unminimised (flood control)
 
 
 def evaluate(prop, doc, hist):
@@ -244,7 +244,7 @@ def work(unit):
                 sample = {"doc": doc.text(), "history": [e2.show_op(o) for o in h2], "result": outcome[1]}
             for cls, detail in found:
                 counters["raw_failures"] += 1
-                if counters["raw_failures"] > MINIMISE_CAP:
+                if len(failures) > MINIMISE_CAP:
                     # a flood of failures (a badly broken tree): stop minimising, report the raw case
                     counters["not_minimised"] += 1
                     failures.setdefault((doc, h2, cls), [0, detail])[0] += 1
@@ -481,7 +481,9 @@ def c19_work(unit):
             counters["laws"] += 1
             if len(o) == 2 and o[0][0] == "ok":
                 mid = obs.attr_tree(o[0][1])
-                if em.expect(mid, *h[1])[0] != "ok":
+                if mid.status == "ok" and len(mid.layers) != len(view.layers):
+                    counters["redo_not_judged_layer_pruned"] += 1  # the rm removed a whole let layer; `set` only re-creates a layer when none is left (C09)
+                elif em.expect(mid, *h[1])[0] != "ok":
                     counters["redo_not_judged_model_refuses_or_unspecified"] += 1  # e.g. the rm pruned an outer let layer (C09: deeper selectors do not create layers)
                 elif o[1][0] != "ok":
                     fail("redo-set-raises", h, f"set of the removed value raised {o[1][1]}: {o[1][2]}", mode)
